@@ -156,11 +156,15 @@ def lm_converged(c, problem, nu0):
     c.holds('returned_point_is_stationary_for_the_sum_of_squares', bool(g <= 1e-6 * g0), note=f"|J^T r| = {g:.3g} (start {g0:.3g})")
 
 
-def cgls_converged(c, m, n, form, shifted):
+def cgls_converged(c, m, n, form, shifted, start='random'):
     """the REAL CGLS (public constructor, generous iteration budget) run to convergence from a random start vector on over- and UNDER-determined systems, with
     and without shift: the returned point solves (A^T A + shift I) x = A^T b (bounded stand-in: native)"""
     A = np.array([[c.real(f'A{i}{j}') for j in range(n)] for i in range(m)]); b = np.array([c.real(f'b{i}') for i in range(m)])
     x0 = np.array([c.real(f'x0{j}') for j in range(n)]); shift = (0.3 + abs(c.real('shift'))) if shifted else 0.0
+    # 'from any starting point': also the zero vector, a coordinate vector, a vector with some entries exactly zero (thresholded / padded warm starts)
+    if start == 'zero': x0 = 0.0 * x0
+    elif start == 'coordinate_vector': x0 = np.eye(n)[0] * (1.0 + abs(x0[0]))
+    elif start == 'partly_zero': x0 = x0 * (np.arange(n) % 2)
     Aarg = A if form == 'matrix' else (lambda v, flag: A @ v if flag == 1 else A.T @ v)
     xs, its = S.CGLS(Aarg, b, x0.copy(), 500, 1e-14, shift).solve()
     xs = np.asarray(xs, dtype=float).ravel()
@@ -266,7 +270,7 @@ def fista_step(c, form='function', adaptive=True):
 # ---------------------------------------------------------------------------------------------
 # Levenberg-Marquardt: invariant r = A(x), J = jac(x), g = J^T r on the cut loop; exit through the gradient criterion
 # ---------------------------------------------------------------------------------------------
-def lm_loop(c, m=2, n=2, sparse=False):
+def lm_loop(c, m=2, n=2, sparse=False, damping='positive'):
     A = lambda v: np.array([c.uf(f'res{i}', *list(v)) for i in range(m)], dtype=object if c.sym else float)
     Jf = lambda v: np.array([[c.uf(f'jac{i}{j}', *list(v)) for j in range(n)] for i in range(m)], dtype=object if c.sym else float)
     x0 = c.vec('x0', n); gradtol = c.real('gradtol', lo=0, hi=1)
@@ -279,7 +283,10 @@ def lm_loop(c, m=2, n=2, sparse=False):
     c.eq('init_g_is_JT_r', st['g'], Jf(x0).T @ A(x0)); c.eq('init_gradient_norm', st['ng'] * st['ng'], np.sum((Jf(x0).T @ A(x0)) ** 2))
     c.eq('reference_gradient_norm_is_initial', st['ng0'], st['ng'])
     # one arbitrary iteration from a state satisfying the invariant
-    xk = c.vec('xk', n); nu = c.real('nu', nonneg=True); ng0 = c.real('ng0', pos=True)      # nu = 0 is reachable: the code switches damping off after good steps
+    # nu = 0 is reachable (the code switches damping off after good steps); the step solves (J^T J + nu I) s = g, which is a well-posed system for nu > 0, and
+    # for nu = 0 only when J has full column rank - impossible for m < n, where the code's own solve raises (loudly): there the state quantifies over nu > 0
+    # The reachable states are covered by two jobs: damping='positive' (nu > 0, every m, n) and damping='off' (nu = 0 exactly, m >= n only).
+    xk = c.vec('xk', n); nu = c.real('nu', pos=True) if damping == 'positive' else (0.0 * c.real('nu', pos=True)); ng0 = c.real('ng0', pos=True)
     gk = Jf(xk).T @ A(xk)
     st1 = dict(st); st1.update(x=xk, r=A(xk), J=Jf(xk), g=gk, ng=c.sqrt(np.sum(gk ** 2)), ng0=ng0, nu=nu, f=0.5 * (A(xk) @ A(xk)), i=3)
     tag, st2 = body(st1)
@@ -382,6 +389,8 @@ def jobs(tier):
     J.append(Job('LM.solve:loop0:invariant_and_exit:m=2:n=1:sparse', lambda c: lm_loop(c, 2, 1, True), 'B', F('LM.solve', 'LM.__init__'), rtol=1e-5, nnum=12))   # sparse branch (spsolve, sparse identity): native only
     for (m_, n_) in ((2, 1),) if tier == 'quick' else ((2, 1), (1, 2), (2, 2)):
         J.append(Job(f'LM.solve:loop0:invariant_and_exit:m={m_}:n={n_}', lambda c, m_=m_, n_=n_: lm_loop(c, m_, n_), 'Pbox', F('LM.solve', 'LM.__init__'), _extra, maxpaths=2048, timeout=1500, rtol=1e-5))
+        # (nu = 0 at n = 2: the undamped normal equations exceed the solvers' budget - bounded stand-in there)
+        if m_ >= n_: J.append(Job(f'LM.solve:loop0:invariant_and_exit:m={m_}:n={n_}:damping_switched_off', lambda c, m_=m_, n_=n_: lm_loop(c, m_, n_, False, 'off'), 'Pbox' if n_ == 1 else 'B', F('LM.solve', 'LM.__init__'), _extra if n_ == 1 else None, maxpaths=2048, timeout=1500, rtol=1e-5, nnum=None if n_ == 1 else 40))
     for w in ('minimize', 'maximize', 'L_BFGS_B', 'LS'):
         J.append(Job(f'{w}.solve:scipy_wrapper', lambda c, w=w: scipy_wrappers(c, w), 'Pbox', F(f'{w}.solve', f'{w}.__init__'), _extra))
     for problem in ('rosenbrock', 'freudenstein_roth', 'rosenbrock_small_units'):
@@ -390,4 +399,7 @@ def jobs(tier):
             J.append(Job(f'LM:real_constructor:run_to_convergence:{problem}:nu0={nu0:g}', lambda c, p_=problem, nu0=nu0: lm_converged(c, p_, nu0), 'B', F('LM.__init__', 'LM.solve'), nnum=3))
     for cls in ('CGLS', 'PCGLS'):
         J.append(Job(f'{cls}:real_constructor:start_vector_of_large_norm', lambda c, cls=cls: cgls_large_norm_start(c, cls), 'B', F(f'{cls}.solve'), nnum=3))
+    for start in ('zero', 'coordinate_vector', 'partly_zero'):
+        for form in ('matrix', 'function'):
+            J.append(Job(f'CGLS:real_constructor:run_to_convergence:m=4:n=3:{form}:shift=True:start={start}', lambda c, f=form, st=start: cgls_converged(c, 4, 3, f, True, st), 'B', F('CGLS.__init__', 'CGLS.solve'), nnum=3))
     return J
